@@ -38,9 +38,11 @@ Print Assumptions print_retokenises_partial.
        begins there, no comment opener, no '.' after a plain decimal integer, no identifier character after a word).
        With the exact condition the printer's own spacing passes in every instance tried (`-1`, `-.5`, `!-a`, `!!a`,
        `+++a`, `a++++`, `0x1F.a`, `a + é`: separated_examples_exact); the check refuses leaves that are no tokens
-       (not_separated_examples).  That it holds for EVERY tree of the fragment is not proved here.
+       (not_separated_examples).  That it holds for EVERY tree of the fragment is not proved here; the jsprint
+       correspondence run evaluates it on the tree of every case (JsPrint/Harness.v: the implementation side expects 1).
    PARTIAL, MISSING:
-     (1) the proof that c06_separated holds for every accepted tree (it is a hypothesis, decidable per tree);
+     (1) the proof that c06_separated holds for every accepted tree (it is a hypothesis, decidable per tree, and checked on
+         every case of the correspondence run);
      (2) a property name that is a reserved word (`a.if`: the printer's token is an IdentifierToken, the lexer returns
          the keyword type — leaf_tokens_real fails; the parser accepts both), and leaf tokens the lexer does not deliver
          through Next (a RegExpToken literal needs RegExp()).
